@@ -133,3 +133,11 @@ package p2p
 // iteration, and so was its assembler), never a block shared between topics.
 //@ func (*P2P).NewStreams
 //@   loop 1 iterensures[ownassembler] forall t lib.Topic :: indom(streams, t) && !athead(indom(streams, t)) ==> streams[t] != nil && freshiter(streams[t]) && freshiter(streams[t].msgAssembler)
+
+// ---- C18: the send loop writes each queued packet to the wire exactly when it takes it off a queue ------------------
+// Every packet handed to sendPacketWithTiming is the packet the select of THIS iteration just received from one of the
+// stream queues - never a packet left over from an earlier iteration (a case that receives nothing, e.g. a timer,
+// must not fall through to the write: the previous packet would go out twice and the remote reassembler would deliver a
+// message that was never sent, or the same message twice).
+//@ func (*MultiConn).startSendService
+//@   callsite sendPacketWithTiming requires[justdequeued] received(callee.pwt)
